@@ -281,25 +281,25 @@ Proof.
     split; intro H; try discriminate; try tauto; try (now elim H); intuition discriminate.
 Qed.
 
-Theorem mssql_offset_forced n m lb tp :
-  page_pieces CMSSQL KSelect (mkPage (Some n) m lb tp) = [POffset; PLimit].
-Proof. reflexivity. Qed.
+Theorem mssql_offset_forced k n m lb tp : k <> KUpdate ->
+  page_pieces CMSSQL k (mkPage (Some n) m lb tp) = [POffset; PLimit].
+Proof. intro H. destruct k; [reflexivity | reflexivity | now elim H]. Qed.
 
-Theorem mssql_offset_zero_text n :
-  render_page CMSSQL KSelect (pg (Some n) None) = " OFFSET 0 ROWS FETCH NEXT " ++ Z_to_string n ++ " ROWS ONLY".
-Proof. reflexivity. Qed.
+Theorem mssql_offset_zero_text k n : k <> KUpdate ->
+  render_page CMSSQL k (pg (Some n) None) = " OFFSET 0 ROWS FETCH NEXT " ++ Z_to_string n ++ " ROWS ONLY".
+Proof. intro H. destruct k; [reflexivity | reflexivity | now elim H]. Qed.
 
-Theorem fetch_family_offset_first c p : is_fetch c = true ->
-  In (page_pieces c KSelect p) [[]; [POffset]; [PLimit]; [POffset; PLimit]].
+Theorem fetch_family_offset_first c k p : is_fetch c = true -> k <> KUpdate ->
+  In (page_pieces c k p) [[]; [POffset]; [PLimit]; [POffset; PLimit]].
 Proof.
-  destruct c; try discriminate; intros _; unfold page_pieces;
+  destruct c; try discriminate; intros _ Hk; destruct k; try (now elim Hk); unfold page_pieces;
     destruct (is_some (lim p)), (truthyZ (off p)); simpl; auto 6.
 Qed.
 
-Theorem limit_family_limit_first c k p : is_fetch c = false \/ k <> KSelect ->
+Theorem limit_family_limit_first c k p : is_fetch c = false \/ k = KUpdate ->
   In (page_pieces c k p) [[]; [PLimit]; [POffset]; [PLimit; POffset]].
 Proof.
-  intros [H|H]; destruct c, k; try discriminate H; try (now elim H); unfold page_pieces;
+  intros [H|H]; destruct c, k; try discriminate H; unfold page_pieces;
     destruct (is_some (lim p)), (truthyZ (off p)); simpl; auto 6.
 Qed.
 
